@@ -28,6 +28,7 @@ inductive Err where
   | format (line : Nat)     -- FormatException(line_number)
   | shape                   -- numpy reshape / index failure (ill-formed table)
   | other
+  | encoding                -- EncodingError: a symbol outside the alphabet of the column's encoding
 deriving DecidableEq, Repr
 
 /-! ## Specification level -/
@@ -617,6 +618,19 @@ def gtDecode (c : Int) : Bytes :=
 def sampleTriplets (data : Bytes) (rows : List (List (Nat × Nat))) : List (List Bytes) :=
   rows.map (fun r => (r.drop 9).map (fun p => slice data p.1 (p.1 + 3)))
 
+/-- `_check_symbols` (repair): the genotype encoders accept `allele sep allele` over their own alphabets only —
+VCFMatrixBuffer: alleles 0 1 2 . and | /; PhasedVCFMatrixBuffer: 0 1 and |; PhasedHaplotypeVCFMatrixBuffer: 0..4 . and | / —
+everything else (an allele number outside the alphabet, a haploid call) is an EncodingError, not allele 0 -/
+def gtOK (flavour : String) (t : Bytes) : Bool :=
+  let a := t.getD 0 0
+  let s := t.getD 1 0
+  let b := t.getD 2 0
+  if flavour = "VCFMatrixBuffer" then gtAlleles.contains a && gtSeps.contains s && gtAlleles.contains b
+  else if flavour = "PhasedVCFMatrixBuffer" then (a == 48 || a == 49) && s == 124 && (b == 48 || b == 49)
+  else if flavour = "PhasedHaplotypeVCFMatrixBuffer" then
+    ((48 ≤ a && a ≤ 52) || a == 46) && gtSeps.contains s && ((48 ≤ b && b ≤ 52) || b == 46)
+  else true
+
 /-- genotype column of the VCF buffer flavours -/
 def genotypeColumn (flavour : String) (data : Bytes) (rows : List (List (Nat × Nat))) : Option Col :=
   if flavour = "VCFMatrixBuffer" then
@@ -656,6 +670,7 @@ def parseVcfX (S : Schema) (shift : Int) (flavour : String) (defs : List (String
     let subs := infoSubfields infoTexts
     let cs ← emap (fun kd : String × String => (infoColumn kd.2 (kd.1.toList.map Char.toNat) subs).map (fun c => (kd.1, c))) defs
     pure (Sum.inr cs)
+  if !((sampleTriplets bs rows).all (·.all (gtOK flavour))) then .error .encoding else
   pure ⟨rows.length, shiftCol 1 shift cols, info, genotypeColumn flavour bs rows⟩
 
 /-! ## GTF / GFF3 attributes read by key (`GTFEntry._get_attributes`, `GFFEntry._get_attributes`) -/
